@@ -34,6 +34,8 @@ type Obligation struct {
 	Extra   []string // extra assumptions of one case of a case split (see splitDischarge)
 	NoQAxioms bool   // leave the quantified spec-function axioms out (a proof without them is still a proof)
 	NoFAxioms bool   // leave the function axioms of pure functions out (likewise)
+	Focus     bool   // keep only the path-condition conjuncts over the goal's own leaf symbols (smt.go)
+	Full      bool   // keep every collected range fact (no cone-of-influence pruning, see smt.go)
 }
 
 type InputVar struct {
@@ -81,6 +83,8 @@ type Ctx struct {
 	ghSorts     map[string]string // ghost variables with a raw SMT sort (e.g. the big-int heap)
 	usesBig     bool
 	rangeSeen   map[string]bool
+	dIndex      *declIndex
+	simp        *simpState
 	pureAxDone  map[string]bool // pure functions whose postconditions were added as a function axiom
 }
 
@@ -98,6 +102,10 @@ func (c *Ctx) fresh(prefix, sort string) string {
 func (c *Ctx) define(prefix, sort, term string) string {
 	c.nameN++
 	n := fmt.Sprintf("%s!%d", sanitize(prefix), c.nameN)
+	if c.contract != nil && c.contract.Fieldwise {
+		term = c.simplifyTerm(term)
+		c.recordDef(n, term)
+	}
 	c.decls = append(c.decls, fmt.Sprintf("(define-fun %s () %s %s)", n, sort, term))
 	return n
 }
@@ -537,9 +545,18 @@ func (f *Frame) mergeStates(states []*State) *State {
 			out.env[o] = *first
 			continue
 		}
-		t := live[len(live)-1].env[o].T
-		for i := len(live) - 2; i >= 0; i-- {
-			t = ite(deltas[i], live[i].env[o].T, t)
+		var t string
+		if f.c.contract != nil && f.c.contract.Fieldwise {
+			alts := make([]string, len(live))
+			for i := range live {
+				alts[i] = live[i].env[o].T
+			}
+			t = f.c.mergeTerms(deltas, alts)
+		} else {
+			t = live[len(live)-1].env[o].T
+			for i := len(live) - 2; i >= 0; i-- {
+				t = ite(deltas[i], live[i].env[o].T, t)
+			}
 		}
 		v := Val{T: t, Ty: first.Ty, IsBool: first.IsBool}
 		// aliasing alternatives of pointer values survive the join, guarded by their branch
